@@ -10,6 +10,8 @@
 #include <deque>
 #include <ompl/datastructures/NearestNeighborsLinear.h>
 #include <ompl/base/goals/GoalState.h>
+#include <ompl/base/goals/GoalSampleableRegion.h>
+#include <ompl/base/spaces/SE2StateSpace.h>
 #include <ompl/control/SpaceInformation.h>
 #include <ompl/control/SimpleDirectedControlSampler.h>
 #include <ompl/control/spaces/RealVectorControlSpace.h>
@@ -204,7 +206,30 @@ int main(int argc, char **argv)
             ob::State *s0 = space->allocState(), *g0 = space->allocState();
             double sy = (q & 1) ? 0.1 : 0.5, gy = (q & 1) ? 0.9 : 0.5;
             set_pos(w, s0, 0.1, sy, 0.3); set_pos(w, g0, 0.9, gy, (q & 2) ? -2.5 : 1.0);
-            auto pdef = std::make_shared<ob::ProblemDefinition>(si); pdef->addStartState(s0); pdef->setGoalState(g0, thr);
+            auto pdef = std::make_shared<ob::ProblemDefinition>(si); pdef->addStartState(s0);
+            if (car && (q & 4))
+            {   // a 'dock' goal: within thr of the goal position AND within 0.35 rad of its heading; distanceGoal() is the planar distance only,
+                // so a state can report a small distance without satisfying the goal
+                struct Dock : public ob::GoalSampleableRegion
+                {
+                    Dock(const ob::SpaceInformationPtr &i, const ob::State *g, double r) : ob::GoalSampleableRegion(i), g_(i->cloneState(g)) { setThreshold(r); }
+                    ~Dock() override { si_->freeState(g_); }
+                    double planar(const ob::State *s) const { auto *a = s->as<ob::SE2StateSpace::StateType>(); auto *b = g_->as<ob::SE2StateSpace::StateType>(); return std::hypot(a->getX() - b->getX(), a->getY() - b->getY()); }
+                    double distanceGoal(const ob::State *s) const override { return planar(s); }
+                    bool isSatisfied(const ob::State *s) const override { return isSatisfied(s, nullptr); }
+                    bool isSatisfied(const ob::State *s, double *d) const override
+                    {
+                        double pd = planar(s); if (d) *d = pd;
+                        double dh = std::fabs(s->as<ob::SE2StateSpace::StateType>()->getYaw() - g_->as<ob::SE2StateSpace::StateType>()->getYaw()); if (dh > M_PI) dh = 2 * M_PI - dh;
+                        return pd <= threshold_ && dh <= 0.35;
+                    }
+                    void sampleGoal(ob::State *s) const override { si_->copyState(s, g_); }
+                    unsigned int maxSampleCount() const override { return 1; }
+                    ob::State *g_;
+                };
+                pdef->setGoal(std::make_shared<Dock>(si, g0, thr));
+            }
+            else pdef->setGoalState(g0, thr);
             ob::PlannerPtr planner;
             if (pl == "RRT") planner = std::make_shared<oc::RRT>(si);
             else if (pl == "RRTi") { auto p = std::make_shared<oc::RRT>(si); p->setIntermediateStates(true); planner = p; }
